@@ -394,6 +394,22 @@ Theorem C09_t_late_setup_pooled_or_closed : forall ls s i,
 Proof. exact KV.Proofs.TransportConnectProofs.tc_late_setup_proof. Qed.
 Print Assumptions C09_t_late_setup_pooled_or_closed.
 
+(* a connection that serves a request is bounded by that request's deadline (TDeadline), whether or not its
+   requester is still waiting and whether or not the group has been closed meanwhile; the obligation behind
+   the label — the connRequest carries the context whose deadline bounds the request: the caller's in
+   sendRequest, the per-refresh WithTimeout context (not the pool context) in connPool.discover — is
+   stated at the step in Model/TransportConnect.v and replayed by the refresh-silent scenarios *)
+Theorem C09_t_busy_connection_bounded : forall ls s i,
+  run KV.Model.TransportConnect.tc_step KV.Model.TransportConnect.tc_init ls = Some s ->
+  nth_error (KV.Model.TransportConnect.tc_conns s) i = Some KV.Model.TransportConnect.TBusy ->
+  KV.Model.TransportConnect.tc_step s (KV.Model.TransportConnect.TDeadline i) =
+    Some (KV.Model.TransportConnect.tc_set i KV.Model.TransportConnect.TClosed s) /\
+  (KV.Model.TransportConnect.tc_closed s = true ->
+   KV.Model.TransportConnect.tc_step s (KV.Model.TransportConnect.TRelease i) =
+     Some (KV.Model.TransportConnect.tc_set i KV.Model.TransportConnect.TClosed s)).
+Proof. exact KV.Proofs.TransportConnectProofs.tc_busy_bounded_proof. Qed.
+Print Assumptions C09_t_busy_connection_bounded.
+
 (* ---- the synchronisation skeleton the model assumes (which Go critical section / channel operation each step of Model/Lifecycle.v, Model/GroupReader.v, Model/ReaderModel.v stands for, reader_assumptions: Model/SkeletonAssumptions.v)
    holds of /repo's CURRENT source: call/access facts regenerated by harness/cmd/vskel on every run. *)
 From KV Require Model.SkeletonAssumptions Gen.Skeleton Proofs.SkeletonReader.
